@@ -5,6 +5,8 @@ import CaddyModel.C05.Driver
 import CaddyModel.C05.Props
 import CaddyModel.C10.Driver
 import CaddyModel.C10.Props
+import CaddyModel.C17.Driver
+import CaddyModel.C17.Props
 import CaddyModel.C18.Driver
 import CaddyModel.C18.Props
 import CaddyModel.C19.Driver
